@@ -39,6 +39,8 @@ class Outcome(object):
         self.known = []          # (entry, obligation)
         self.undecided = []
         self.errors = []
+        self.suspects = []       # (obligation, function, relaxed model, solver detail)
+        self.weak = []           # D-tier violations without a native witness: (obligation, payload)
 
 
 def run_dtier(pid, cfg, tier, seed, out, ev):
@@ -89,7 +91,14 @@ def run_dtier(pid, cfg, tier, seed, out, ev):
                 backends[b] = backends.get(b, 0) + 1
         elif co.status == "unknown":
             n_obl += 1
-            out.undecided.append("%s: solver gave no answer (%s)" % (name, co.detail))
+            relaxed = (co.detail or {}).get("relaxed_model") if isinstance(co.detail, dict) else None
+            brief = {k: v for k, v in (co.detail or {}).items() if k != "relaxed_model"} if isinstance(co.detail, dict) else co.detail
+            if relaxed and name in base_clauses:
+                # discharged on the unchanged tree, now not provable, and the query minus its quantified
+                # axioms has a model: reported as a violation candidate (decided below, after the bounded tier)
+                out.suspects.append((name, find_function(name, functions), relaxed, brief))
+            else:
+                out.undecided.append("%s: solver gave no answer (%s)" % (name, brief))
         elif co.status == "refuted":
             fn = find_function(name, functions)
             witness = {"model": co.model or {}, "info": co.info}
@@ -123,8 +132,7 @@ def run_dtier(pid, cfg, tier, seed, out, ev):
                 elif name in base_clauses or not base_clauses:
                     payload["note"] = ("obligation is discharged on the unchanged tree and is now refuted by the solver; "
                                        "no concrete failing input was found natively")
-                    path = write_replay(pid, name, payload)
-                    out.violations.append((name, path, " no-failing-input-found"))
+                    out.weak.append((name, payload))
                 else:
                     out.undecided.append("%s: refuted but never part of the discharged baseline" % name)
         per.append(d)
@@ -216,6 +224,7 @@ def run_property(pid, tier, seed, only=None):
         print("CHECKER-ERROR: %s" % traceback.format_exc())
         return 3
     ev["assumptions"].extend(getattr(cfg, "ASSUMPTIONS", []))
+    settle_weak(pid, tier, seed, out)
     write_evidence(pid, cfg, tier, seed, out, ev, time.time() - t0)
     seen = set()
     for entry, obl in out.known:
@@ -240,6 +249,31 @@ def run_property(pid, tier, seed, only=None):
     if out.errors:
         return 3
     return 0
+
+
+def settle_weak(pid, tier, seed, out):
+    """Deductive violations that came without a native witness: if the bounded tier of the same
+    run produced a concrete failing input, point to it; otherwise report them flagged
+    'no-failing-input-found' (replay file = obligation + solver output)."""
+    concrete = [v for v in out.violations if v[2] == ""]
+    for name, payload in out.weak:
+        if concrete:
+            payload["witness_from_bounded_tier"] = concrete[0][1]
+            path = write_replay(pid, name, payload)
+            out.violations.append((name, path, ""))
+        else:
+            path = write_replay(pid, name, payload)
+            out.violations.append((name, path, " no-failing-input-found"))
+    for name, fn, relaxed, brief in out.suspects:
+        payload = {"property": pid, "obligation": name, "function": fn, "tier": tier, "seed": seed,
+                   "solver_output": brief, "relaxed_counter_model": relaxed,
+                   "note": "discharged on the unchanged tree; on this tree the solver cannot prove it and the query without "
+                           "its quantified axioms is satisfiable (candidate counter-model attached)"}
+        if concrete:
+            payload["witness_from_bounded_tier"] = concrete[0][1]
+            out.violations.append((name, write_replay(pid, name, payload), ""))
+        else:
+            out.violations.append((name, write_replay(pid, name, payload), " no-failing-input-found"))
 
 
 def write_evidence(pid, cfg, tier, seed, out, ev, wall):
